@@ -27,5 +27,6 @@ def handleLine (line : String) : String :=
       | some c => s!"ok {bits c.features} {VL.hexEncode c.style} {VL.boolStr c.effInit} {VL.hexEncode c.pkgPrefix} {VL.hexEncode c.template} {replStr c.repl}"
   | _ => "bad-op"
 
-def main : IO Unit := Driver.lineLoop handleLine
 end Driver.C20
+
+def main : IO Unit := Driver.lineLoop Driver.C20.handleLine
